@@ -1384,9 +1384,7 @@ impl<K: KeyT, V: ValT> MapWorld<K, V> {
 /// Equality as hashbrown's `PartialEq for HashMap` defines it needs `V: PartialEq`; the simulator's
 /// values compare by payload.
 fn map_eq<K: KeyT, V: ValT>(a: &SMap<K, V>, b: &SMap<K, V>) -> bool {
-    // Use the real `==` through a thin wrapper type is impossible without `V: PartialEq`, so call the
-    // same public operations `==` is specified by.
-    a.len() == b.len() && a.iter().all(|(k, v)| b.get(k).map_or(false, |w| w.val() == v.val()))
+    a == b
 }
 
 /// Source iterator handed to extend/from_iter, with an optionally lying size hint (F13).
